@@ -377,6 +377,54 @@ func devirtBoundCalls(fn *ssa.Function) bool {
 	return changed
 }
 
+// devirtConcreteInvokes: an interface method invoked on a value that was made
+// an interface from a concrete repository type in this very function is a
+// static call of that type's method.
+func devirtConcreteInvokes(fn *ssa.Function, inRepo func(string) bool) bool {
+	changed := false
+	for _, b := range fn.Blocks {
+		for _, in := range b.Instrs {
+			call, ok := in.(*ssa.Call)
+			if !ok || !call.Call.IsInvoke() {
+				continue
+			}
+			v := call.Call.Value
+			for d := 0; d < 3; d++ {
+				switch ci := v.(type) {
+				case *ssa.ChangeInterface:
+					v = ci.X
+				case *ssa.ChangeType:
+					v = ci.X
+				}
+			}
+			mi, ok := v.(*ssa.MakeInterface)
+			if !ok {
+				continue
+			}
+			t := mi.X.Type()
+			named, _ := t.(*types.Named)
+			if pt, isP := t.(*types.Pointer); isP {
+				named, _ = pt.Elem().(*types.Named)
+			}
+			if named == nil || named.Obj().Pkg() == nil || !inRepo(named.Obj().Pkg().Path()) {
+				continue
+			}
+			m := fn.Prog.LookupMethod(t, call.Call.Method.Pkg(), call.Call.Method.Name())
+			if m == nil {
+				continue
+			}
+			call.Call.Args = append([]ssa.Value{mi.X}, call.Call.Args...)
+			call.Call.Value = m
+			call.Call.Method = nil
+			changed = true
+		}
+	}
+	if changed {
+		rebuildReferrers(fn)
+	}
+	return changed
+}
+
 // Normalise brings every repository function into the shape the rules read:
 // static calls to repository functions that are not in known are inlined
 // (callees first), loops over literal tables are unrolled, lookups in literal
@@ -424,6 +472,12 @@ func (p *Prog) Normalise(known map[string]bool, keep func(*ssa.Function) bool) (
 				again = false
 				// (a method value called where it was made is the method call)
 				devirtBoundCalls(fn)
+				// a repository component wrapped in a narrow local interface right where
+				// it is used (`o.events().FireBefore(…)` with events() returning the
+				// *Events as an eventFirer): the call is the component's method
+				if inlinedInto[fn] {
+					devirtConcreteInvokes(fn, func(path string) bool { return p.ByPath[path] != nil })
+				}
 				stripNamedFuncCalls(fn)
 			scan:
 				for _, b := range fn.Blocks {
@@ -570,6 +624,17 @@ func stripNamedFuncCalls(fn *ssa.Function) {
 				case *ssa.Function, *ssa.MakeClosure:
 					call.Call.Value = ct.X
 					changed = true
+				}
+			}
+			// a test seam: an unexported package-level `var compareHash =
+			// bcrypt.CompareHashAndPassword`, initialised once with a function and never
+			// assigned again by the package, is that function
+			if ld, ok := call.Call.Value.(*ssa.UnOp); ok && ld.Op == token.MUL {
+				if g, isG := ld.X.(*ssa.Global); isG && !token.IsExported(g.Name()) {
+					if f := GlobalInitFunc(g); f != nil {
+						call.Call.Value = f
+						changed = true
+					}
 				}
 			}
 			// a method expression `(*T).m` used as a function value is a thunk that
